@@ -75,23 +75,27 @@ def splitDecimal : List Char → List (List Char)
 
 def countDot (t : List Char) : Nat := t.count '.'
 
+/-- `token[-1] in '.,'` (`tok` is the token reversed) -/
+def lastIsSep (tok : List Char) : Bool :=
+  match tok with
+  | c :: _ => c == '.' || c == ','
+  | [] => false
+
+/-- `l = _split_decimal.split(token); token = l[0]; tokenstack += [tok for tok in l[1:] if tok]` -/
+def resplit (token : List Char) : List Token :=
+  match splitDecimal token with
+  | [] => []
+  | t0 :: rest => t0 :: rest.filter (fun t => !t.isEmpty)
+
 /-- the code after the `while` loop: re-split, comma→dot, and what goes out (token, then the
-    non-empty pieces queued on `tokenstack`) -/
+    non-empty pieces queued on `tokenstack`); after a re-split `token.replace(',', '.')` is a no-op -/
 def emit (st : LexSt) : List Token :=
-  let token := st.tok.reverse
-  let dotted : Bool := st.state == .aDot || st.state == .nDot
-  let lastSep : Bool := match st.tok with
-    | c :: _ => c == '.' || c == ','
-    | [] => false
-  if dotted && (st.seen || decide (countDot token > 1) || lastSep) then
-    match splitDecimal token with
-    | [] => []
-    | t0 :: rest =>
-      -- `token = l[0]`; afterwards `token.replace(',', '.')` is a no-op on `l[0]`
-      t0 :: rest.filter (fun t => !t.isEmpty)
-  else if st.state == .nDot && countDot token == 0 then
-    [token.map (fun c => if c = ',' then '.' else c)]
-  else [token]
+  if (st.state == .aDot || st.state == .nDot) &&
+      (st.seen || decide (countDot st.tok.reverse > 1) || lastIsSep st.tok) then
+    resplit st.tok.reverse
+  else if st.state == .nDot && countDot st.tok.reverse == 0 then
+    [st.tok.reverse.map (fun c => if c = ',' then '.' else c)]
+  else [st.tok.reverse]
 
 /-- `elif not state:` — the first character of a token.  Returns the tokens emitted at once
     (space / single other character) and the state the machine is left in. -/
